@@ -67,6 +67,10 @@ def step (s : S) (ws : List String) : S × String :=
   | ["dump"] => match s.txn with | some x => (s, dump x.t) | none => (s, "bad-op")
   | ["commit"] =>
     match s.txn with
+    | some x => ({ s with versions := s.versions.push x, txn := none }, s!"v{s.versions.size} {x.size}")
+    | none => (s, "bad-op")
+  | ["commitkeep"] =>
+    match s.txn with
     | some x => ({ s with versions := s.versions.push x }, s!"v{s.versions.size} {x.size}")
     | none => (s, "bad-op")
   | ["abandon"] => ({ s with txn := none }, "ok")
